@@ -12,6 +12,7 @@ import (
 	"io"
 	"math/big"
 	"math/rand"
+	"runtime"
 	"strings"
 	"sync"
 	"time"
@@ -22,6 +23,44 @@ import (
 type seedReader struct{ r *rand.Rand }
 
 func (s *seedReader) Read(p []byte) (int, error) { s.r.Read(p); return len(p), nil }
+
+// The randomness source of a conversation of an ordinary pair: the seeded stream, plus a call back
+// after a read has been delivered (set by the pair's own goroutine around one library call, nil
+// otherwise). The bytes delivered never depend on it; it only decides WHEN the library gets to use
+// them - a user supplied source may be slow, and other conversations of the process go on meanwhile.
+type gateReader struct {
+	in    io.Reader
+	reads int
+	after func(read int) // read: 0 for the first read since the call back was set
+}
+
+func (g *gateReader) Read(p []byte) (int, error) {
+	n, err := g.in.Read(p)
+	if g.after != nil {
+		k := g.reads
+		g.reads++
+		g.after(k)
+	}
+	return n, err
+}
+
+// how a pair is lined up with the other pairs of the process (alone: concAlone, nothing waits)
+type concSync struct {
+	barrier     func() // everybody, the pair with the wide key included
+	pairBarrier func() // the ordinary pairs only
+	// the chain of a round: the pairs in some order; each one starts its answer when the one before it
+	// is in the middle of its own, and goes on with its own when the one after it is through
+	waitPrev func(round int) // returns when the previous pair of the chain is inside its answer (or gives none)
+	inside   func(round int) // this pair is inside its answer: a read of its randomness source has just been served
+	waitNext func(round int) // returns when the next pair of the chain is through its answer (or gives none)
+	answered func(round int) // this pair is through its answer of that round (or gives none)
+}
+
+var concAlone = concSync{func() {}, func() {}, func(int) {}, func(int) {}, func(int) {}, func(int) {}}
+
+// SMP runs after the key files: concFreeRounds in which all pairs answer at the same moment, then
+// concChainRounds in which the answers are nested one inside the other
+const concFreeRounds, concChainRounds = 2, 2
 
 // DSA signing draws a non-deterministic number of bytes from its randomness source; it gets its own,
 // so that the conversation's seeded stream (and with it every DH key) is reproducible
@@ -54,14 +93,15 @@ func (p *concParty) HandleErrorMessage(code otr3.ErrorCode) []byte {
 
 // one pair doing handshake, traffic, errors, SMP, fragmentation and teardown; the transcript
 // contains everything that is deterministic given the seed (DSA signatures are not: wire bytes omitted)
-func concRun(seed int64, barrier func()) ([]string, []otr3.ValidMessage) {
+func concRun(seed int64, sy concSync) ([]string, []otr3.ValidMessage) {
+	barrier := sy.barrier
 	r := rand.New(rand.NewSource(seed))
 	var log []string
 	pairTag := fmt.Sprintf("%x", uint32(seed)&0xffff)
 	mk := func(tag string, keyIdx int, frag uint16) *concParty {
 		tag += pairTag
 		c := &otr3.Conversation{}
-		c.Rand = &seedReader{rand.New(rand.NewSource(r.Int63()))}
+		c.Rand = &gateReader{in: &seedReader{rand.New(rand.NewSource(r.Int63()))}}
 		c.Policies.AllowV2()
 		c.Policies.AllowV3()
 		c.Policies.SendWhitespaceTag()
@@ -237,7 +277,65 @@ func concRun(seed int64, barrier func()) ([]string, []otr3.ValidMessage) {
 		}
 		log = append(log, fmt.Sprintf("key file imports: %d failed, %d accounts differ from the file", failed, wrong))
 	}
-	_ = io.EOF
+	// More SMP runs, the secrets equal on both sides, lined up with the other pairs at the very point where
+	// the answer (ProvideAuthenticationSecret: the second message and its seven secret exponents) is made:
+	//   - rounds in which all pairs call ProvideAuthenticationSecret at the same moment, straight after a
+	//     barrier, their randomness sources giving way to the other goroutines after every read;
+	//   - rounds in which the answers are nested: this pair's randomness source serves the read for the
+	//     first or the second exponent and then takes its time - the next pair of the chain makes its whole
+	//     answer meanwhile (in the middle of which the pair after it makes its own, and so on).
+	// Conversations that share nothing cannot tell any of this from running alone.
+	for round := 0; round < concFreeRounds+concChainRounds; round++ {
+		chain := round >= concFreeRounds
+		starter, answerer := a, b
+		if r.Intn(2) == 1 {
+			starter, answerer = b, a
+		}
+		slowRead := r.Intn(2)
+		secret := []byte(fmt.Sprintf("secret %d of pair %s", round, pairTag))
+		ok := a.c.IsEncrypted() && b.c.IsEncrypted()
+		if ok {
+			age()
+			ts, err := starter.c.StartAuthenticate("", secret)
+			log = append(log, fmt.Sprintf("%s smpstart round %d err=%s", starter.tag, round, otr3.VerifErrClass(err)))
+			push(starter, ts)
+			settle()
+		}
+		if chain {
+			sy.waitPrev(round)
+		} else {
+			sy.pairBarrier()
+		}
+		var ts []otr3.ValidMessage
+		if ok {
+			g := answerer.c.Rand.(*gateReader)
+			g.reads = 0
+			if chain {
+				g.after = func(k int) {
+					if k == slowRead {
+						sy.inside(round)
+						sy.waitNext(round)
+					}
+				}
+			} else {
+				g.after = func(int) { runtime.Gosched() }
+			}
+			age()
+			var err error
+			ts, err = answerer.c.ProvideAuthenticationSecret(secret)
+			g.after = nil
+			how := "at the same moment as the other pairs"
+			if chain {
+				how = fmt.Sprintf("the next pair answering while read %d of the randomness source returns", slowRead)
+			}
+			log = append(log, fmt.Sprintf("%s smpsecret round %d (%s) err=%s n=%d", answerer.tag, round, how, otr3.VerifErrClass(err), len(ts)))
+		}
+		sy.answered(round)
+		if ok {
+			push(answerer, ts)
+			settle()
+		}
+	}
 	return log, held
 }
 
@@ -357,7 +455,7 @@ func init() {
 		solo := make([][]string, n)
 		for i := 0; i < n; i++ {
 			// alone: the replies are looked at again before any other conversation exists
-			lg, held := concRun(seed*100000+int64(i), func() {})
+			lg, held := concRun(seed*100000+int64(i), concAlone)
 			solo[i] = append(lg, heldLines(held)...)
 			for _, l := range solo[i] {
 				if strings.HasPrefix(l, "held reply") || strings.Contains(l, "recv damaged") {
@@ -379,35 +477,84 @@ func init() {
 			conc := make([][]string, n+1) // the last one is the pair with the wide key
 			heldAll := make([][]otr3.ValidMessage, n)
 			var wg sync.WaitGroup
-			// a barrier for the last phase: everybody waits until all n pairs have arrived (a pair that
-			// panicked before has arrived as well, see the deferred call)
-			var bmu sync.Mutex
-			bcond := sync.NewCond(&bmu)
-			waiting, generation, gone := 0, 0, 0 // gone: pairs that panicked and will never arrive again
-			barrier := func() {
-				bmu.Lock()
-				defer bmu.Unlock()
-				gen := generation
-				waiting++
-				if waiting+gone >= n+1 {
-					waiting = 0
-					generation++
-					bcond.Broadcast()
-					return
+			// barriers: everybody waits until all participants have arrived (one that panicked before has
+			// arrived as well, see the deferred call)
+			mkBarrier := func(total int) (arrive, leave func()) {
+				var bmu sync.Mutex
+				bcond := sync.NewCond(&bmu)
+				waiting, generation, gone := 0, 0, 0 // gone: participants that are through (or panicked) and will never arrive again
+				arrive = func() {
+					bmu.Lock()
+					defer bmu.Unlock()
+					gen := generation
+					waiting++
+					if waiting+gone >= total {
+						waiting = 0
+						generation++
+						bcond.Broadcast()
+						return
+					}
+					for gen == generation {
+						bcond.Wait()
+					}
 				}
-				for gen == generation {
-					bcond.Wait()
+				leave = func() {
+					bmu.Lock()
+					gone++
+					if waiting > 0 && waiting+gone >= total {
+						waiting = 0
+						generation++
+						bcond.Broadcast()
+					}
+					bmu.Unlock()
+				}
+				return
+			}
+			barrier, leaveAll := mkBarrier(n + 1)
+			pairBarrier, leavePairs := mkBarrier(n)
+			// the chains of the nested rounds (a different pair is the innermost one in every round); every
+			// channel is closed by its own pair only, at the latest when its goroutine ends
+			const smpRounds = concFreeRounds + concChainRounds
+			insideCh, answeredCh := make([][]chan struct{}, n), make([][]chan struct{}, n)
+			insideDone, answeredDone := make([][]bool, n), make([][]bool, n)
+			for i := 0; i < n; i++ {
+				insideDone[i], answeredDone[i] = make([]bool, smpRounds), make([]bool, smpRounds)
+				for k := 0; k < smpRounds; k++ {
+					insideCh[i] = append(insideCh[i], make(chan struct{}))
+					answeredCh[i] = append(answeredCh[i], make(chan struct{}))
 				}
 			}
-			leave := func() {
-				bmu.Lock()
-				gone++
-				if waiting > 0 && waiting+gone >= n+1 {
-					waiting = 0
-					generation++
-					bcond.Broadcast()
+			syncOf := func(i int) concSync {
+				pos := func(round int) int { return (i + round + int(seed)) % n }
+				at := func(round, p int) int { return ((p-round-int(seed))%n + n) % n } // the pair at place p of the chain
+				inside := func(round int) {
+					if !insideDone[i][round] {
+						insideDone[i][round] = true
+						close(insideCh[i][round])
+					}
 				}
-				bmu.Unlock()
+				return concSync{
+					barrier:     barrier,
+					pairBarrier: pairBarrier,
+					waitPrev: func(round int) {
+						if p := pos(round); p > 0 {
+							<-insideCh[at(round, p-1)][round]
+						}
+					},
+					inside: inside,
+					waitNext: func(round int) {
+						if p := pos(round); p < n-1 {
+							<-answeredCh[at(round, p+1)][round]
+						}
+					},
+					answered: func(round int) {
+						inside(round)
+						if !answeredDone[i][round] {
+							answeredDone[i][round] = true
+							close(answeredCh[i][round])
+						}
+					},
+				}
 			}
 			for i := 0; i <= n; i++ {
 				wg.Add(1)
@@ -418,19 +565,20 @@ func init() {
 							conc[i] = []string{fmt.Sprint("PANIC ", r)}
 						}
 					}()
-					done := false
-					defer func() {
-						if !done {
-							leave() // (a panic: the others must not wait for this pair)
-						}
-					}()
+					// whether it is through or panicked: the others must not wait for this pair any more
+					defer leaveAll()
 					if i == n {
 						conc[i] = concWideRun(wideSeed, barrier)
 					} else {
-						conc[i], heldAll[i] = concRun(seed*100000+int64(i), barrier)
+						sy := syncOf(i)
+						defer func() {
+							leavePairs()
+							for k := 0; k < smpRounds; k++ {
+								sy.answered(k)
+							}
+						}()
+						conc[i], heldAll[i] = concRun(seed*100000+int64(i), sy)
 					}
-					done = true
-					leave()
 				}(i)
 			}
 			wg.Wait()
